@@ -29,22 +29,29 @@
     * `asm_arm64_lookup_is_sbox`: TBL + 3 × (SUB #0x40, TBX) over the 256-byte `SBox<>` in V16..V31 is the S-box of
       the specification on every byte of the register; `asm_arm64_shl_sri_is_rotl`: SHL #r + SRI #(32−r) is the
       rotation; `asm_arm64_subRound`: one `subRoundX4` block is the SM4 round on every word element.
+    * `asm_arm64_cryptoBlockAsmX2_eq_spec`, `asm_arm64_cryptoBlockAsmX4_eq_spec`, `asm_arm64_cryptoBlockAsmX8_eq_spec`:
+      the listings of the 2- / 4- / 8-block kernels leave `Spec.SM4.crypt rk` of every block in the destination, for
+      all round keys, all blocks, any register / destination contents (dst and src disjoint, as the GCM glue calls
+      them).
     * `asm_arm64_rounds_all_lanes` + `asm_arm64_wide_kernels_rounds`: the 800 middle instructions of the listings of
-      `cryptoBlockAsmX2` / `cryptoBlockAsmX4` are 32 SM4 rounds on the word elements 0,1 / 0..3.
+      `cryptoBlockAsmX2` / `cryptoBlockAsmX4` are 32 SM4 rounds on the word elements 0,1 / 0..3 (ingredients of the
+      two theorems above, kept as statements of their own).
   TESTED ON ONE INPUT EACH (evaluation of the interpreter inside the kernel, `decide +kernel`):
     * `asm_arm64_test_X1_standard`, `asm_arm64_test_X1_inplace`: GB/T 32907 A.1 vector through `cryptoBlockAsm`;
     * `asm_arm64_test_X2_X4_X8_X16`: 2 / 4 / 8 / 16 pairwise different blocks through X2 / X4 / X8 / X16Internal
       (X16 with tmp = dst, as the Go wrapper calls it) against the specification;
     * `asm_arm64_test_expandKey`: the A.1 key through `expandKeyAsm` gives the standard's round keys, forwards in
       `enc`, backwards in `dec`.
-  NOT PROVED IN GENERAL: the prologue / epilogue of X2 and X4 (element loads, LD4 / ST4 de-interleave, REV32,
-  register swaps), all of X8 and X16Internal (different round macros with interleaved look-ups and state stashed in
-  memory): tests only.
+  NOT PROVED IN GENERAL: `cryptoBlockAsmX16Internal` (its round macro `subRoundX16` stashes the state of 16 blocks
+  in the 256-byte `tmp` buffer — which the Go wrapper makes the SAME buffer as `dst` — and reloads it several times
+  per round): one kernel-evaluated test only; X2 / X4 / X8 called in place (dst = src): not stated.
 -/
 import SMGo.Proofs.ISAValArm64Spec
 import SMGo.Proofs.ISAValArm64Wide
 import SMGo.Proofs.ISAValArm64Tests
 import SMGo.Proofs.ISAValArm64ExpandSpec
+import SMGo.Proofs.ISAValArm64X2
+import SMGo.Proofs.ISAValArm64X8Spec
 namespace SMGo.Props.C05Arm64
 open SMGo
 open SMGo.Model.ISAValArm64
@@ -106,6 +113,43 @@ theorem C05_asm_arm64 (g v g' v' key enc0 dec0 dst0 src : List Nat)
     rw [asm_arm64_cryptoBlockAsm_eq_spec g' v' _ dst0 src hg' hv' (by simp [hlen])
       (by intro x hx; simp only [List.mem_map] at hx; obtain ⟨w, _, rfl⟩ := hx; exact w.isLt) hsrc hsb hdst]
     simp [Spec.SM4.decrypt, List.map_map, Function.comp_def]
+
+open Proofs.ISAValArm64 in
+/-- **The arm64 listing of `cryptoBlockAsmX2` computes two SM4 block functions of the specification**:
+    `specBlock rk src e` is `Spec.SM4.crypt rk` of the bytes 16e … 16e+15 of `src` -/
+theorem asm_arm64_cryptoBlockAsmX2_eq_spec (g v rk dst0 src : List Nat)
+    (hg : g.length = 31) (hv : v.length = 32) (hrk : rk.length = 32) (hrkb : ∀ x ∈ rk, x < 2 ^ 32)
+    (hsrc : src.length = 32) (hsb : ∀ x ∈ src, x < 256) (hdst : dst0.length = 32) :
+    runDst Gen.ListArm64Asm.cryptoBlockAsmX2 Gen.ListArm64AsmArr.cryptoBlockAsmX2_arr (kernelState g v rk dst0 src)
+      = .ok (specBlock rk src 0 ++ specBlock rk src 1) :=
+  kernelX2_eq_spec g v rk dst0 src hg hv hrk hrkb hsrc hsb hdst
+
+open Proofs.ISAValArm64 in
+/-- **The arm64 listing of `cryptoBlockAsmX4` (LD4 / ST4 transposition) computes four SM4 block functions of the
+    specification** -/
+theorem asm_arm64_cryptoBlockAsmX4_eq_spec (g v rk dst0 src : List Nat)
+    (hg : g.length = 31) (hv : v.length = 32) (hrk : rk.length = 32) (hrkb : ∀ x ∈ rk, x < 2 ^ 32)
+    (hsrc : src.length = 64) (hsb : ∀ x ∈ src, x < 256) (hdst : dst0.length = 64) :
+    runDst Gen.ListArm64Asm.cryptoBlockAsmX4 Gen.ListArm64AsmArr.cryptoBlockAsmX4_arr (kernelState g v rk dst0 src)
+      = .ok (specBlock rk src 0 ++ (specBlock rk src 1 ++ (specBlock rk src 2 ++ specBlock rk src 3))) :=
+  kernelX4_eq_spec g v rk dst0 src hg hv hrk hrkb hsrc hsb hdst
+
+open Proofs.ISAValArm64 in
+/-- **The arm64 listing of `cryptoBlockAsmX8` (two register sets, interleaved table look-ups) computes eight SM4
+    block functions of the specification** -/
+theorem asm_arm64_cryptoBlockAsmX8_eq_spec (g v rk dst0 src : List Nat)
+    (hg : g.length = 31) (hv : v.length = 32) (hrk : rk.length = 32) (hrkb : ∀ x ∈ rk, x < 2 ^ 32)
+    (hsrc : src.length = 128) (hsb : ∀ x ∈ src, x < 256) (hdst : dst0.length = 128) :
+    runDst Gen.ListArm64Asm.cryptoBlockAsmX8 Gen.ListArm64AsmArr.cryptoBlockAsmX8_arr (kernelState g v rk dst0 src)
+      = .ok ((specBlock rk src 0 ++ (specBlock rk src 1 ++ (specBlock rk src 2 ++ specBlock rk src 3))) ++
+             (specBlock rk src 4 ++ (specBlock rk src 5 ++ (specBlock rk src 6 ++ specBlock rk src 7)))) :=
+  kernelX8_eq_spec g v rk dst0 src hg hv hrk hrkb hsrc hsb hdst
+
+open Proofs.ISAValArm64 in
+/-- `specBlock` unfolded -/
+theorem asm_arm64_specBlock (rk src : List Nat) (e : Nat) :
+    specBlock rk src e
+      = (Spec.SM4.crypt (rk.map (BitVec.ofNat 32)) (((src.drop (16 * e)).take 16).map UInt8.ofNat)).map (·.toNat) := rfl
 
 open Proofs.ISAValArm64 in
 /-- `tableLookupX4` of asm_arm64.s (VSUB CONST; VTBL over V16..V19; VSUB; TBX over V20..V23; VSUB; TBX over V24..V27;
@@ -218,6 +262,10 @@ end SMGo.Props.C05Arm64
 #print axioms SMGo.Props.C05Arm64.asm_arm64_cryptoBlockAsm_inplace_eq_spec
 #print axioms SMGo.Props.C05Arm64.asm_arm64_expandKeyAsm_eq_spec
 #print axioms SMGo.Props.C05Arm64.C05_asm_arm64
+#print axioms SMGo.Props.C05Arm64.asm_arm64_cryptoBlockAsmX2_eq_spec
+#print axioms SMGo.Props.C05Arm64.asm_arm64_cryptoBlockAsmX4_eq_spec
+#print axioms SMGo.Props.C05Arm64.asm_arm64_cryptoBlockAsmX8_eq_spec
+#print axioms SMGo.Props.C05Arm64.asm_arm64_specBlock
 #print axioms SMGo.Props.C05Arm64.asm_arm64_lookup_is_sbox
 #print axioms SMGo.Props.C05Arm64.asm_arm64_shl_sri_is_rotl
 #print axioms SMGo.Props.C05Arm64.asm_arm64_subRound
